@@ -233,10 +233,13 @@ def handleAl : Toks → Option String
     let retx := final.best.x
     -- tolerant section: `make_ro1`, and the constraint kinds at the first and at the returned point
     let ro1m := makeRo1 fx0 (mkState cs x0) 1e-6 1e-6 10.0
+    -- … and at every point a valid inner-solver answer reports (the hypothesis `Consistent` of the theorems)
+    let consistent := (recs.filter (·.iterOk)).map (fun r =>
+      s!"{showFloats (evalEq kinds r.cx)} {showFloats (evalIneq kinds r.cx)}")
     pure (String.intercalate " " (["ok", toString final.status, toString final.iters] ++ recStrs ++
       [showFloats retx, showFloats final.best.ceq, showFloats final.best.cineq, hexOfFloat (violation final.best),
        "~", hexOfFloat ro1m, showFloats (evalEq kinds x0), showFloats (evalIneq kinds x0),
-       showFloats (evalEq kinds retx), showFloats (evalIneq kinds retx)]))
+       showFloats (evalEq kinds retx), showFloats (evalIneq kinds retx)] ++ consistent))
   | _ => none
 
 def handle (fam : String) (rest : Toks) : Option String :=
